@@ -226,6 +226,11 @@ var c19Faults = []struct {
 	{"stray-text-in-call-multiline", "{call .zz}\n{param j: 1 /}\nstray\n\n\n{param k: 2 /}\n{/call}", 2},
 	{"stray-text-in-switch-multiline", "{switch 1}\n{case 1}a\n{/switch}{switch 2}\n  stray\n\n{case 2}b\n{/switch}", 3},
 	{"double-brace-closed-once-multiline", "{{call .zz}}\n{{param k: 1 /}\n{{/call}}", 1},
+	// an unterminated string that begins on a LATER line than its tag: the error stands at the quote, not at the tag's brace
+	{"unterminated-string-multiline-print", "{$x +\n 'abc}", 1},
+	{"unterminated-string-multiline-print-3", "{$x\n +\n 1 + 'abc | escapeUri}", 2},
+	{"unterminated-string-multiline-param", "{call .zz}\n{param k:\n 'abc /}\n{/call}", 2},
+	{"unterminated-string-multiline-call-data", "{call .zz\n data=\"$x['abc]\" /}", 1},
 }
 
 func genC19parse(g *G) {
@@ -268,7 +273,7 @@ func genC19parse(g *G) {
 					(fl.name == "unterminated-tag" && strings.ContainsAny(strings.Join(out[faultLine:], "\n"), "}")) {
 					continue
 				}
-				if fl.name == "unterminated-string" && strings.Contains(strings.Join(out[faultLine:], "\n"), "'") {
+				if strings.HasPrefix(fl.name, "unterminated-string") && strings.Contains(strings.Join(out[faultLine:], "\n"), "'") {
 					continue // a later quote would close the string: the fault would legitimately surface elsewhere
 				}
 				nt := faultLine > 1 && faultLine < len(out)
